@@ -542,6 +542,7 @@ def run(ctx, ck):
     sxg = SymExec(ctx, g, bind_loops=True, effects=True, depth=3, max_paths=2000)
     sxg.self_cls = 'Wire'
     ends_ = set()
+    unresolved_ = False
     for p_ in sxg.run():
         if p_.end == 'raise':
             continue
@@ -557,10 +558,18 @@ def run(ctx, ck):
         if not calls_:
             ends_.add('<no call of taper1>')
         for c_ in calls_:
+            if any(k_.arg is None for k_ in c_.keywords):
+                unresolved_ = True
             kw_ = {k_.arg: k_.value for k_ in c_.keywords}
             e_ = kw_.get('end', c_.args[6] if len(c_.args) > 6 else None)
             ends_.add(norm(e_) if e_ is not None else '<end not given>')
     ok = ends_ == {'self.segtype - 1'}
+    if unresolved_:
+        # a keyword bundle whose keys the walk could not follow (filled by a generator / another dict): the
+        # statements of the function (and the helpers it calls on self) are searched for `end=self.segtype - 1`
+        from ..rules import self_closure
+        ok = any('end=self.segtype - 1' in norm(s_) for h_ in self_closure(ctx, g) for s_ in h_.body())
+        ends_ = {'(bundle not followed) end=self.segtype - 1 %s' % ('written' if ok else 'not written')}
     ck.ob('R-SIB.taper-mirror', g.qual + '|end=segtype-1', ok, g.loc(),
           'taper end passed as segtype - 1' if ok else 'taper1 is called with end = %s' % sorted(ends_))
 
